@@ -76,7 +76,8 @@ def mkCase (m : List (String × String)) : Case :=
     requestHashOf := fun _ => strOf (g "reqHashReal"),
     tokenHash := fun _ => [0], proofHash := fun _ => [1],
     verify := fun _ msg _ => if msg = [0] then appSigOK else clientSigOK,
-    session := session,
+    sessionCache := (let c := g "cached"; if c = "-" || c = "" then none else if c = "~" then some [] else some ((c.splitOn ",").map fun a => Bytes.parse a)),
+    sessionGen := session,
     sessionEndCtxOk := g "label" ≠ "session-end-ctx-missing" }
   { E, r, sbhArg, app, appStakedNow := boolOf (g "appStakedNow"), appStaked := g "appStatus" = "2" && !boolOf (g "appJailed"),
     appSigOK, clientSigOK, label := g "label" }
@@ -100,7 +101,7 @@ def specServed (c : Case) (handle : Bool) : Option Verdict :=
     if !c.clientSigOK then fail "served-with-bad-client-signature"
     else if p.requestHash ≠ E.requestHashOf c.r then fail "served-with-wrong-request-hash"
     else if E.addrOf p.servicer ≠ some E.nodeAddr then fail "served-for-other-servicer-key"
-    else if !(match E.session with | .ok ns => ns.contains (some E.nodeAddr) | _ => false) then fail "served-outside-session"
+    else if !(match E.session with | .ok ns => ns.contains (some E.nodeAddr) | _ => false) then fail "served-by-non-session-servicer"
     else if !app.chains.contains p.chain then fail "served-chain-not-of-application"
     else if !E.hosted.contains p.chain then fail "served-chain-not-hosted"
     else if E.height + E.blockAllowance < c.r.metaHeight ∨ E.height - E.blockAllowance > c.r.metaHeight then fail "served-out-of-sync-block-height"
